@@ -7,7 +7,7 @@ from vlib.wsgi import make_environ, call_app, validate, call_app_watchdog, Hang
 
 ID = 'C03'
 LEVEL = 'exploration'
-RULE = ('case = handler program (data, interpreted by vlib/programs.py): outcome in {str, bytes, empty, None, list / generator / custom iterable object (own '
+RULE = ('plus static_file() as the outcome under a grid of Range spellings (ends at / beyond the end of the file) x file_wrapper x GET/HEAD: Content-Length equals the bytes returned; case = handler program (data, interpreted by vlib/programs.py): outcome in {str, bytes, empty, None, list / generator / custom iterable object (own '
         'close(), __iter__ returning a separate iterator) of str or bytes with leading empty items, generator or iterable failing at the first next(), file-like '
         'with / without close and __iter__, real seekable streams already read up to an offset, with / without wsgi.file_wrapper, HTTPResponse / HTTPError returned, raised or yielded first, nested up to 3 deep, '
         'one response object shared by all requests, exception of a generated class (RuntimeError, ValueError, KeyError, Unicode*Error, OSError, StopIteration, a custom class ...) in the handler}; request paths with and without non-ASCII tails; status set on the response or on the returned object from {100,101,102,103,199, '
@@ -417,11 +417,55 @@ def run(ctx):
                         hs['500'] = k2
                     ctx.guarded(check_case, dict(base, out={'k': 'str', 'v': 'x'}, method='GET', resp_status=None, file_wrapper=False, target=target, handlers=hs, before=[], after=[]))
         ctx.count('outcome_matrix')
+        check_static_ranges(ctx)
     n = 3000 if ctx.tier == 'quick' else 40000
     ctx.hyp(case_st(), check_case, n)
+
+
+def check_static_ranges(ctx):
+    """static_file() as the handler outcome: for every Range spelling (ends inside, at and beyond the end of the file, suffixes longer than the file,
+    unsatisfiable ones), with and without wsgi.file_wrapper, GET and HEAD: one start_response, a Content-Length that equals the bytes returned."""
+    for n in (0, 1, 10, 1024, 70000):
+        specs = [None, 'bytes=0-', 'bytes=0-0', f'bytes=0-{n - 1}', f'bytes=0-{n}', f'bytes=0-{n + 4095}', f'bytes={max(0, n - 1)}-{n + 10}', f'bytes={n // 2}-{n * 3 + 7}', 'bytes=-5', f'bytes=-{n + 10}',
+                 f'bytes={n}-', f'bytes={n}-{n + 5}', 'bytes=5-2', f'bytes={n // 3}-{n // 2}', 'bytes=0-0,5-9', 'junk']
+        for spec in specs:
+            for fw in (False, True):
+                for method in ('GET', 'HEAD'):
+                    ctx.guarded(check_static_range, {'static_range': spec, 'n': n, 'file_wrapper': fw, 'method': method})
+    ctx.count('static_file_range_grid')
+
+
+def check_static_range(ctx, case):
+    import os
+    import shutil
+    import tempfile
+    from vlib.static import serve_static
+    n, spec, fw, method = case['n'], case['static_range'], case['file_wrapper'], case['method']
+    root = tempfile.mkdtemp(prefix='verif-c03-')
+    try:
+        with open(os.path.join(root, 'f.bin'), 'wb') as f:
+            f.write(bytes(i % 251 for i in range(n)))
+        r = serve_static('f.bin', root, method=method, headers=({'Range': spec} if spec else {}),
+                         environ_extra=({'wsgi.file_wrapper': P.ServerFileWrapper} if fw else None))
+    finally:
+        shutil.rmtree(root, ignore_errors=True)
+    what = f'static_file of a {n}-byte file, {method}, Range {spec!r}, file_wrapper={fw}'
+    if r.escaped is not None:
+        raise CheckFailure(f'{what}: exception escaped {fmt_exc(r.escaped)}')
+    validate(r, what)
+    if len(r.calls) != 1:
+        raise CheckFailure(f'{what}: start_response called {len(r.calls)} times')
+    if method == 'HEAD' and r.body:
+        raise CheckFailure(f'{what}: HEAD answered with {len(r.body)} body bytes')
+    cl = r.header_all('Content-Length')
+    if method == 'GET' and r.code in (200, 206) and (len(cl) != 1 or not cl[0].isdigit() or int(cl[0]) != len(r.body)):
+        raise CheckFailure(f'{what}: {r.status!r} Content-Length {cl!r} but {len(r.body)} body bytes were returned')
+    ctx.nontrivial(what)
 
 
 def replay(ctx, case):
     if 'event' in case:
         return check_concurrent_hooks(ctx, case)
+    if 'static_range' in case:
+        return check_static_range(ctx, case)
     check_case(ctx, case)
